@@ -165,7 +165,7 @@ def r14_2_3(ctx):
     pk = p.func("parse.IMAPClientCommand._p_search_key")
     from .common import pm_of
     pmk = pm_of(p, pk)
-    if pmk.has("return IMAPSearch('and', search_key=search_key)") and pmk.has("return IMAPSearch('message_set', msg_set=msg_set)"):
+    if pmk.has("return IMAPSearch('and', search_key=search_key)") and pmk.has("msg_set = self._p_msg_set()\nreturn IMAPSearch('message_set', msg_set=msg_set)"):
         ctx.ok("R14.3", where(pk), "parenthesised list = AND; bare set = message_set")
     else:
         ctx.bad("R14.3", pk.module, pk.qual, "paren list / bare set", "parenthesised lists or bare sequence sets are no longer desugared to and / message_set", pk.node.lineno)
@@ -222,32 +222,22 @@ def r14_5(ctx):
         m = sc.methods.get(f"_match_{op}")
         if m is None:
             continue
-        rets = [s for s in body_walk(m.node) if isinstance(s, ast.Return) and isinstance(s.value, ast.Compare)]
-        if len(rets) != 1:
-            ctx.bad("R14.5", m.module, m.qual, f"_match_{op}", f"_match_{op} no longer returns a single comparison", m.node.lineno)
-            continue
-        cmp_ = rets[0].value
-        arg = "self.args['date']" if "date" in val else "self.args['n']"
-        if norm(cmp_.left) == arg and len(cmp_.ops) == 1:
-            # written the other way round (`argument > value`): read it as `value < argument`
-            mir = {ast.Lt: ast.Gt, ast.Gt: ast.Lt, ast.LtE: ast.GtE, ast.GtE: ast.LtE, ast.Eq: ast.Eq, ast.NotEq: ast.NotEq}
-            if type(cmp_.ops[0]) in mir:
-                cmp_ = ast.Compare(left=cmp_.comparators[0], ops=[mir[type(cmp_.ops[0])]()], comparators=[cmp_.left])
-        got = type(cmp_.ops[0]).__name__
-        left, right = norm(cmp_.left), norm(cmp_.comparators[0])
-        # value provenance
         from .common import pm_of
-        pmm = pm_of(p, m)
+        sym = {"Lt": "<", "Gt": ">", "GtE": ">=", "LtE": "<=", "Eq": "=="}[want]
+        arg = "self.args['date']" if "date" in val else "self.args['n']"
         if val == "internal_date":
-            prov = pmm.has("v = self.ctx.internal_date().date()") and norm(cmp_.left) == pmm.name("v")
+            shapes = [f"v = self.ctx.internal_date().date()\nreturn v {sym} {arg}"]
         elif val == "date_header":
-            prov = pmm.has("msg = self.ctx.msg()") and pmm.has("v = parsedate(msg['date']).date()") and norm(cmp_.left) == pmm.name("v")
+            shapes = [
+                f"msg = self.ctx.msg()\nif 'date' not in msg:\n    return False\nv = parsedate(msg['date']).date()\nreturn v {sym} {arg}",
+                f"msg = self.ctx.msg()\nif 'date' in msg:\n    v = parsedate(msg['date']).date()\n    return v {sym} {arg}\nreturn False",
+            ]
         else:
-            prov = pmm.has("v = self.ctx.msg_size()") and norm(cmp_.left) == pmm.name("v")
-        if got == want and right == arg and prov:
+            shapes = [f"v = self.ctx.msg_size()\nreturn v {sym} {arg}"]
+        if any(pm_of(p, m).has(sh) for sh in shapes):
             ctx.ok("R14.5", where(m), f"{op.upper()}: <{val}> {want} <argument>")
         else:
-            ctx.bad("R14.5", m.module, m.qual, norm(rets[0]), f"{op.upper()} must compare the message's {val} with the argument using {want} (found {got}, value provenance ok={prov}): messages on the boundary are wrongly included/excluded", rets[0].lineno)
+            ctx.bad("R14.5", m.module, m.qual, f"return <{val}> {sym} {arg}", f"{op.upper()} must compare the message's {val} with the argument using {want}: messages on the boundary are wrongly included/excluded (or the value compared is not this message's {val})", m.node.lineno)
     mn = sc.methods["_match_not"]
     if any(isinstance(s, ast.Return) and isinstance(s.value, ast.UnaryOp) and isinstance(s.value.op, ast.Not) and "self.args['search_key'].match(self.ctx)" in norm(s.value) for s in body_walk(mn.node)):
         ctx.ok("R14.5", where(mn), "NOT negates its sub-key")
@@ -258,7 +248,7 @@ def r14_5(ctx):
         from .common import pm_of
         pmm = pm_of(p, m)
         other = "any" if fn == "all" else "all"
-        if pmm.has(f"if {fn}((x.result() for x in tasks)):\n    return True") and not pmm.has(f"{other}(...)") and pmm.has("for search_op in self.args['search_key']:\n    tasks.append(tg.create_task(search_op.match(self.ctx)))"):
+        if pmm.has(f"if {fn}((x.result() for x in tasks)):\n    return True\nreturn False") and not pmm.has(f"{other}(...)") and pmm.has("for search_op in self.args['search_key']:\n    tasks.append(tg.create_task(search_op.match(self.ctx)))"):
             ctx.ok("R14.5", where(m), f"{op.upper()} = {fn}() over every sub-key")
         else:
             ctx.bad("R14.5", m.module, m.qual, f"{fn}(x.result() for x in tasks)", f"{op.upper()} no longer combines all of its sub-keys with {fn}()", m.node.lineno)
